@@ -51,6 +51,7 @@ class State:
         self.trace = []     # branch decisions (for path naming)
         self.nframes = 0
         self.notes = []
+        self.loop_phase = {}
 
     def fork(self):
         s = State(self.facts.copy())
@@ -58,6 +59,7 @@ class State:
         s.trace = list(self.trace)
         s.nframes = self.nframes
         s.notes = list(self.notes)
+        s.loop_phase = dict(self.loop_phase)
         return s
 
 class Interp:
@@ -66,6 +68,8 @@ class Interp:
         self.contracts = contracts      # object with .call(interp, state, callee, args) -> list of (state, value)
         self.max_paths = max_paths
         self.npaths = 0
+        self.loop_specs = {}        # func name -> LoopSpec (inductive invariant of the function's single loop)
+        self.side = []              # obligations raised inside the run: (clause name, polys, facts snapshot, trace)
 
     # ------------------------------------------------------------ places
     def read_place(self, st, fr, p):
@@ -74,7 +78,10 @@ class Interp:
             key = (fr, p[1])
             if key not in st.mem:
                 raise Unsupported("read of unassigned local _%d" % p[1])
-            return st.mem[key]
+            v = st.mem[key]
+            if isinstance(v, tuple) and v and v[0] == 'undef':
+                raise Unsupported("read of a loop-modified local _%d that the invariant does not describe" % p[1])
+            return v
         if k == 'deref':
             v = self.read_place(st, fr, p[1])
             return self.deref(st, v)
@@ -273,6 +280,24 @@ class Interp:
         while True:
             if bb not in func.blocks:
                 raise Unsupported("missing block bb%s" % bb)
+            ls = self.loop_specs.get(func.name)
+            if ls is not None and bb in ls.heads(func):
+                phase = st.loop_phase.get((fr, bb))
+                if phase is None:
+                    # establishment, then havoc of everything the loop assigns
+                    for cname, polys in ls.invariant(self, st, fr, func):
+                        self.side.append(('loop_inv_established/' + cname, polys, st.facts.copy(), list(st.trace)))
+                    nodes, assigned = ls.heads(func)[bb]
+                    for loc in assigned:
+                        if isinstance(loc, int):
+                            st.mem[(fr, loc)] = ('undef', loc)
+                    ls.havoc(self, st, fr, func)
+                    st.loop_phase[(fr, bb)] = 'iter'
+                    st.trace.append('loop-head(havoc)')
+                else:
+                    for cname, polys in ls.invariant(self, st, fr, func):
+                        self.side.append(('loop_inv_preserved/' + cname, polys, st.facts.copy(), list(st.trace)))
+                    return
             stmts, term = func.blocks[bb]
             for s in stmts:
                 self.exec_stmt(func, fr, st, s)
@@ -373,3 +398,19 @@ def short_ty(path):
     p = norm_types(p)
     p = re.sub(r'<.*>', '', p)
     return p.split('::')[-1]
+
+
+class LoopSpec:
+    """inductive invariant for the (single) loop of a function.
+    invariant(interp, st, fr, func) -> [(clause, [polys])] (may raise Violation); havoc(interp, st, fr, func) re-establishes
+    the loop-carried locals with fresh symbolic values satisfying the invariant."""
+    def __init__(self, invariant, havoc):
+        self.invariant = invariant
+        self.havoc = havoc
+        self._heads = {}
+
+    def heads(self, func):
+        if func.name not in self._heads:
+            import mirparse
+            self._heads[func.name] = mirparse.loops(func)
+        return self._heads[func.name]
